@@ -360,7 +360,7 @@ func (g *G) MoveCoordinator() bool {
 	return false
 }
 
-func genScenario(name string, c08 bool) *netctl.Scenario {
+func genScenario(name string, c08, dev bool) *netctl.Scenario {
 	cfgs := gcfgs07
 	if c08 {
 		cfgs = gcfgs08
@@ -370,20 +370,45 @@ func genScenario(name string, c08 bool) *netctl.Scenario {
 		Faults:  nil,
 		Horizon: 6 * time.Minute,
 		Setup: func(x *netctl.Exec) {
-			thor := ev.Thorough()
+			// size: "quick" and "thor" are the family proper (default schedule);
+			// "dev" is the small sub-family the thorough tier explores with one
+			// deviation; "one" is what the dev plan runs in the quick tier (a
+			// single execution: the quick tier already has the whole family).
+			size := "quick"
+			if ev.Thorough() {
+				size = "thor"
+			}
+			if dev {
+				size = "one"
+				if ev.Thorough() {
+					size = "dev"
+				}
+			}
+			thor := size == "thor"
 			var cfgNames []string
 			for _, c := range cfgs {
 				cfgNames = append(cfgNames, c.name)
 			}
+			if size == "one" {
+				cfgNames = cfgNames[:1]
+			}
 			cfg := cfgs[x.ChooseOf("cfg", cfgNames)]
-			env := "-PMD"[x.ChooseOf("env", []string{"-", "add-partition", "move-coordinator", "delete-t2"})]
-			// Sizes (per configuration). Quick: A every script of <= 2 calls (no
-			// pause), B one of {-, p, t, L, X}, B's gate one of {with A, after
-			// A's join, after A's last call}; with an environment action A has
-			// <= 1 call, B is one of {-, t, X} and the action lands after B's
-			// join or after B's script. Thorough: pause too, A <= 3 calls (B
-			// silent for the 3-call scripts), B every script of <= 1 call, every
-			// gate, every environment gate, and a third member when B is silent.
+			envNames := []string{"-", "add-partition", "move-coordinator", "delete-t2"}
+			if dev {
+				envNames = envNames[:1]
+			}
+			env := "-PMD"[x.ChooseOf("env", envNames)]
+			// Sizes per configuration.
+			// quick: A every script of <= 2 calls (no pause), B one of {-, p, t,
+			//   L, X}, B's gate one of {with A, after A's join, after A's last
+			//   call}; with an environment action A has <= 1 call, B is one of
+			//   {-, t, X} and the action lands after B's join or after B's script.
+			// thor: pause too; A <= 2 calls x B every script of <= 1 call x every
+			//   gate; A's 3-call scripts with a silent B; a third member when A has
+			//   <= 1 call and B is silent; environment actions at 3 landing points
+			//   with A <= 1 call and B one of {-, p, t, L, X}.
+			// dev: A <= 1 call, B one of {-, t, X}, B after A's join, no
+			//   environment action.
 			envGate := 1
 			if env != '-' {
 				if thor {
@@ -393,22 +418,24 @@ func genScenario(name string, c08 bool) *netctl.Scenario {
 				}
 			}
 			la := 2
-			if thor {
+			switch {
+			case size == "one":
+				la = 0
+			case dev || env != '-':
+				la = 1
+			case thor:
 				la = 3
-			}
-			if env != '-' {
-				la--
 			}
 			alpha := cfg.alphabet(thor)
 			as := genScripts(alpha, la)
 			a := as[x.ChooseOf("a", scriptNames(as))]
 			var bs []string
 			switch {
-			case len(a) == 3:
+			case size == "one" || len(a) == 3:
 				bs = []string{""}
-			case thor:
+			case thor && env == '-':
 				bs = genScripts(alpha, 1)
-			case env != '-':
+			case dev || (env != '-' && !thor):
 				bs = []string{"", "t", "X"}
 			default:
 				bs = []string{"", "p", "t", "L", "X"}
@@ -416,11 +443,13 @@ func genScenario(name string, c08 bool) *netctl.Scenario {
 			b := bs[x.ChooseOf("b", scriptNames(bs))]
 			gates := []int{-1} // -1: together with A; i: after A's i-th call (0 = its join)
 			for i := 0; i <= len(a); i++ {
-				if thor || i == 0 || i == len(a) {
+				if (thor && env == '-' && len(a) < 3) || i == 0 || i == len(a) {
 					gates = append(gates, i)
 				}
 			}
-			if env != '-' && !thor {
+			if dev {
+				gates = []int{0}
+			} else if env != '-' && !thor {
 				gates = gates[1:]
 			}
 			gateNames := make([]string, len(gates))
@@ -432,7 +461,7 @@ func genScenario(name string, c08 bool) *netctl.Scenario {
 			}
 			gate := gates[x.ChooseOf("gate", gateNames)]
 			third := ""
-			if thor && b == "" {
+			if thor && env == '-' && b == "" && len(a) <= 1 {
 				third = []string{"", "stay", "X"}[x.ChooseOf("c", []string{"-", "join", "join-close"})]
 			}
 
@@ -631,14 +660,21 @@ func genAllow(parent explore.Job, point int, label string, cost int) bool {
 	return true
 }
 
-// GenPlanC07 / GenPlanC08 are the generated families: quick = every
-// (configuration, environment, scripts, gate) on the default schedule;
-// thorough = longer scripts and a third member on the default schedule, then
-// every single deviation, time-capped.
-func GenPlanC07() nrun.Plan {
-	return nrun.Plan{Scenario: genScenario("GG", false), QuickBudget: 0, ThoroughBudget: 1, Weight: 12, Allow: genAllow}
+// GenPlansC07 / GenPlansC08 are the generated families. GG / GRG: every
+// (configuration, environment, scripts, gate) on the default schedule (quick
+// sizes in the quick tier, the longer scripts and the third member in the
+// thorough tier). GG1 / GRG1: thorough tier only (one execution in the quick
+// tier), every single deviation over the small sub-family, time-capped.
+func GenPlansC07() []nrun.Plan {
+	return []nrun.Plan{
+		{Scenario: genScenario("GG", false, false), QuickBudget: 0, ThoroughBudget: 0, Weight: 10},
+		{Scenario: genScenario("GG1", false, true), QuickBudget: 0, ThoroughBudget: 1, Weight: 5, Allow: genAllow},
+	}
 }
 
-func GenPlanC08() nrun.Plan {
-	return nrun.Plan{Scenario: genScenario("GRG", true), QuickBudget: 0, ThoroughBudget: 1, Weight: 12, Allow: genAllow}
+func GenPlansC08() []nrun.Plan {
+	return []nrun.Plan{
+		{Scenario: genScenario("GRG", true, false), QuickBudget: 0, ThoroughBudget: 0, Weight: 10},
+		{Scenario: genScenario("GRG1", true, true), QuickBudget: 0, ThoroughBudget: 1, Weight: 5, Allow: genAllow},
+	}
 }
